@@ -15,6 +15,11 @@ CLAIMS = {
          "do-block statements and function bodies are evaluated in environments created by Environment::extend / extend_with in the same arm (R3); every name resolved before the environment lookup, `inputs` and every reserved word is refused or unparsable (R4). "
          "Histories are covered only inductively (every insert guarded), not by exploring sequences.",
          BASE_NOTE, "DESIGN.md §4 C03"),
+ "C04": ("sibling agreement between the capture analysis and the evaluator's environment reads (lexically scoped HIR walk) + match coverage against the AST type definitions + MIR provenance of the scope chain + shape oracles of the arity tests and positional binding",
+         "Exhaustive static decision of: the AST positions at which the evaluator reads the environment by a name from the AST (Identifier, record shorthand) are exactly those collect_free_variables collects; it recurses into every Expr/RecordKey variant with an expression child; binder arms extend a copy of the bound set (R1); "
+         "a body runs in extend_with(extend_shared(caller, captured scope) | caller, locals) with parameters inserted last, and the captured scope is built from the defining environment for exactly the collected names minus parameters (R2); "
+         "Exact/AtLeast/Between are tested identically in both check_arity copies and can_accept, get_arity classifies by rest/all-required/optional, required/optional/rest bind positionally without raw indexing, and the arity check dominates the call (R3).",
+         BASE_NOTE, "DESIGN.md §4 C04"),
  "C06": ("resolved cargo feature check (serde_json float_roundtrip) + match-table bijection over the four value<->JSON conversion functions + HIR guard analysis of the input-object loop",
          "Exhaustive static decision of: JSON text is parsed by serde_json built with float_roundtrip and without arbitrary_precision (R1); from_json/to_json/from_value/to_value preserve the value kind arm by arm, compose to the identity on the six data kinds, "
          "recurse with the same function and are lossy only on the number arm (R2); records are IndexMap end to end and the outputs map handed to serde_json is an IndexMap (R3); every member of an input object is inserted, conditional only on its own conversion (R4); "
